@@ -24,6 +24,7 @@ package rules
 
 import (
 	"fmt"
+	"strings"
 	"unicode/utf8"
 
 	"github.com/kstenerud/go-concise-encoding/ce/events"
@@ -423,6 +424,27 @@ func (_this *Context) ValidateContentsMarkerIDString(contents string) {
 func (_this *Context) ValidateMediaType(mediaType string) {
 	if !utf8.ValidString(mediaType) {
 		panic(fmt.Errorf("media type is not valid UTF-8: %v", mediaType))
+	}
+	// type "/" subtype, https://datatracker.ietf.org/doc/html/rfc2045#section-5.1
+	// (same shape as MEDIA_TYPE in the CTE grammar)
+	slashIndex := -1
+	for i := 0; i < len(mediaType); i++ {
+		ch := mediaType[i]
+		switch {
+		case ch >= 'a' && ch <= 'z', ch >= 'A' && ch <= 'Z':
+			continue
+		case i == 0:
+			// Must begin with a letter
+		case ch == '/' && slashIndex < 0:
+			slashIndex = i
+			continue
+		case ch >= '0' && ch <= '9', strings.IndexByte("!#$%&'*+.^_`|~{}-", ch) >= 0:
+			continue
+		}
+		panic(fmt.Errorf("media type [%v] contains an invalid character at index %v", mediaType, i))
+	}
+	if slashIndex < 0 || slashIndex == len(mediaType)-1 {
+		panic(fmt.Errorf("media type [%v] is not of the form type/subtype", mediaType))
 	}
 }
 
